@@ -670,10 +670,16 @@ func runLocal(ctx *core.Ctx, pool *lenvPool, lc *localCase) {
 	}
 	// the origin's view
 	var wantSeen []seenReq
+	// A request answered with a tolerated proxy error after an origin reply with stray bytes was
+	// written on a connection the stray bytes had poisoned: the origin may or may not have logged it.
+	optional := map[string]bool{}
 	for k := 0; k < nExpect; k++ {
 		q, r := lc.Reqs[k], rs[k]
 		if q.refusedStatus(lc.Env) == 0 {
 			wantSeen = append(wantSeen, seenReq{ID: r.id, Method: q.Method, Target: "/l/" + r.id, Len: len(r.decoded), Sum: bodySum(r.decoded)})
+			if k < len(obs.resps) && proxyError(obs.resps[k]) && afterStray(lc, k) {
+				optional[r.id] = true
+			}
 		}
 	}
 	if wantEnd == "open" && lc.Env != "time" {
@@ -691,7 +697,16 @@ func runLocal(ctx *core.Ctx, pool *lenvPool, lc *localCase) {
 			break
 		}
 	}
-	if ok && fmt.Sprint(seen) != fmt.Sprint(wantSeen) {
+	required := func(l []seenReq) []seenReq {
+		var out []seenReq
+		for _, s := range l {
+			if !optional[s.ID] {
+				out = append(out, s)
+			}
+		}
+		return out
+	}
+	if ok && fmt.Sprint(required(seen)) != fmt.Sprint(required(wantSeen)) {
 		fail(lClauseOrigin, fmt.Sprintf("the origin received %v, the client sent it %v", seen, wantSeen))
 	}
 
